@@ -81,3 +81,26 @@ Definition method_in_language (m : method) : bool :=
   m_request m && m_path_params_ok m && match m_http m with HUnspecified => false | _ => true end.
 Definition service_in_language (sv : service) : bool :=
   match sv_methods sv with [] => false | _ => true end && forallb method_in_language (sv_methods sv).
+
+(* ---- topics (sourcewalk/topic.go acceptTopic + conversion.go visitTopicNode): the messages become
+   objects of the topic file; reqres and upsert messages get a required metadata field whose type
+   lives in j5/messaging/v1/{reqres,upsert}.proto (an implicit import) *)
+Inductive topic := TPublish (messages : nat) | TReqRes (requests replies : nat) | TUpsert | TEvent.
+
+Definition topic_messages (t : topic) : nat :=
+  match t with TPublish n => n | TReqRes a b => a + b | TUpsert => 1 | TEvent => 1 end.
+Definition topic_has_metadata (t : topic) : bool :=
+  match t with TReqRes _ _ | TUpsert => true | _ => false end.
+(* a reqres topic is two services (request and reply), each visited like a topic of its own *)
+Definition compile_topic (t : topic) : dstate :=
+  let has_msgs := Nat.ltb 0 (topic_messages t) in
+  let s := if has_msgs then set_d st_object_msg (ens IJ5Ext d0) else d0 in
+  (* the metadata field: resolveType imports the type's file; required: validate + j5 ext imports *)
+  let s := if has_msgs && topic_has_metadata t then ens IJ5Ext (ens IBufValidate (ens IRefFile s)) else s in
+  ens IGEmpty (ens IMsgAnnotations (set_d st_topic_service s)).
+
+(* ---- the shells of objects and oneofs (visitObjectNode / visitOneofNode), without properties *)
+Definition compile_object_shell (entity : bool) : dstate :=
+  let s := if entity then set_d st_object_psm (ens IJ5Ext d0) else d0 in
+  set_d st_object_msg (ens IJ5Ext s).
+Definition compile_oneof_shell : dstate := set_d st_oneof_msg (ens IJ5Ext d0).
